@@ -30,6 +30,7 @@ func init() {
 			{ID: "C06.R12", Floor: 3, Run: columnEffectsComplete, Text: "per-column effects are not skipped (= C01.R12): a re-used table starts empty in every column, whatever the column's type"},
 			{ID: "C06.R13", Floor: 1, Run: deactivateOnlyOnRetire, Text: "a table is marked inactive only by the retiring method (which also removes it from the target map and pushes its slot to the free list)"},
 			{ID: "C06.R14", Floor: 3, Run: targetFlagsCoverIndex, Text: "the target flags cover the index: every World.targetEntities.ExtendTo(x) has x = the capacity the index is allocated with, a capacity helper's result, or the old index length plus the increment"},
+			{ID: "C06.R15", Floor: 20, Run: flagArgsNotComputed, Text: "has-relation flags are not computed from the target (= C05.R13): an explicit zero target resets the target instead of keeping a dead one"},
 		},
 	})
 }
